@@ -1809,7 +1809,7 @@ class Harness:
             for i, b in zip(targets, before):
                 a = snap(objs[i])
                 if a != b and objs[i] is not res:
-                    ctx.fail(f"ownership:{self.family(res)}:{self.valued(objs[i])}-argument:mutating-the-result-changes-the-argument",
+                    ctx.fail(f"ownership-history:{self.family(res)}:{self.valued(objs[i])}-argument:mutating-the-result-changes-the-argument",
                              f"{key}: r.{m}(..) on the RESULT changes the {rl[i]} that was passed in (the list is shared): {diff(b, a)}",
                              {'history': [call_txt, f"r.{m}(..)", f"the {rl[i]} of the first call is no longer what it was: {diff(b, a)}"],
                               'inputs_pickle_hex': _try_pickle(pristine)})
@@ -1828,7 +1828,7 @@ class Harness:
                 ctx.count('ownership_steps')
                 a = snap(res)
                 if a != b:
-                    ctx.fail(f"ownership:{self.family(res)}:{self.valued(objs[i], True)}-argument:mutating-the-argument-changes-the-result",
+                    ctx.fail(f"ownership-history:{self.family(res)}:{self.valued(objs[i], True)}-argument:mutating-the-argument-changes-the-result",
                              f"{key}: {m}(..) on the {rl[i]} AFTER the call changes the result obtained earlier (the list is shared): {diff(b, a)}",
                              {'history': [call_txt, f"<{rl[i]}>.{m}(..)", f"r is no longer what it was: {diff(b, a)}"],
                               'inputs_pickle_hex': _try_pickle(pristine)})
